@@ -602,6 +602,7 @@ func (s *Session) enterBlock(fr *Frame, b *ssa.BasicBlock) *State {
 			lm = map[string][]modLoc{}
 			se := &SpecEnv{sess: s, pkg: fr.fn.Pkg.Pkg, vars: s.frameEnv(fr), st: st, old: fr.old, fr: fr}
 			se.lookup = s.localLookup(fr, st, b)
+			se.lookupLoc = s.localCellLocAt(fr, st, b, -1)
 			for _, it := range fr.contract.LoopMod[ord] {
 				locs, err := s.itemLocs(se, it)
 				if err != nil {
